@@ -28,9 +28,23 @@ def select(tier):
         yield e
 
 
-def check_entry(S, e, rep, pid="C13", rules=("a", "b", "c")):
-    lab = e.label()
+def check_entry(S, e, rep, pid="C13", rules=("a", "b", "c", "h")):
     sm, raised, kwargs, extra = entry_summary(S, e)
+    res = judge_summary(S, e, rep, pid, rules, e.label(), sm, raised, extra)
+    if "h" in rules and res is not None and res.raised is None and not res.problems and not res.unwritten:
+        # the documented value is a function of the arguments of THIS call: the same object called again (whatever the
+        # generator keeps between calls is then in its after-first-call state) must do the same
+        from .common import second_call_summary
+        sm2 = second_call_summary(S, e)
+        if sm2 is None:
+            rep.ob(pid + ".h", "%s second call" % e.label(), True, "a second call on the same generated kernel performs exactly the effects of the first",
+                   key="%s.h|%s" % (pid, e.label()), nontrivial=False)
+        else:
+            judge_summary(S, e, rep, pid, tuple(r for r in rules if r != "h"), e.label() + " [second call on the same generated kernel]", sm2, None, extra)
+    return res
+
+
+def judge_summary(S, e, rep, pid, rules, lab, sm, raised, extra):
     if sm is None or sm.raised is not None:
         ex = raised or sm.raised
         rep.ob(pid + ".call", lab, False, "the generator / kernel call raises: %s" % ex,
@@ -116,7 +130,8 @@ def run(S, tier, rep):
                      "returned callable (symbolic execution of its op trace over arbitrary array contents, wrapper plumbing "
                      "inlined) must equal the documented closed form on the documented region; other arguments unchanged")
     rep.explanation = ("C13.a formula equality of normal forms; C13.b region (interior/ring/zones) with asymptotic bound ordering; "
-                       "C13.c write set; C13.call: the call itself must not raise (arity/broadcast/shape)")
+                       "C13.c write set; C13.call: the call itself must not raise (arity/broadcast/shape); C13.h the same generated "
+                       "kernel called a second time performs the effects of the first call, or else its second-call summary is judged by a/b/c again")
     gens = set()
     entries = list(select(tier))
     from .simtools import parallel_over
